@@ -7,6 +7,7 @@ import (
 	"bytes"
 	"encoding/json"
 	"fmt"
+	"github.com/BlackVectorOps/semantic_firewall/v3/internal/cli"
 	"os"
 	"os/exec"
 	"path/filepath"
@@ -313,6 +314,19 @@ func suiteMigrate(c *Ctx) error {
 			cnt, merr := ps.MigrateFromJSON(in)
 			have, _ := ps.CountSignatures()
 			ps.Close()
+			// the command `sfw migrate` wraps the same call: it must fail exactly when the import fails
+			{
+				old := os.Stdout
+				sink, _ := os.Create(filepath.Join(dir, "migrate.out"))
+				os.Stdout = sink
+				cliErr := cli.RunMigrate(in, filepath.Join(dir, "db-cli"))
+				os.Stdout = old
+				sink.Close()
+				if (cliErr == nil) != (merr == nil) {
+					c.Violate("C18", "C18/cli-migrate-outcome-differs-from-import", fmt.Sprintf("file cut at byte %d/%d: MigrateFromJSON error=%v but cli.RunMigrate error=%v", cut, len(full), merr, cliErr),
+						map[string]interface{}{"file": string(full), "cut": cut, "import_error": fmt.Sprint(merr), "cli_error": fmt.Sprint(cliErr)})
+				}
+			}
 			os.RemoveAll(dir)
 			real := fmt.Sprintf("ok:%d", cnt)
 			if merr != nil {
